@@ -334,6 +334,12 @@ func (s *Session) bind(o *Config) {
 	// TODO Check all elements
 	switch payload := iq.Payload.(type) {
 	case *stanza.Bind:
+		// The result of resource binding carries the full JID the server bound (RFC 6120 7.6.1, 7.7.1): an empty
+		// <bind/> is not that result.
+		if payload.Jid == "" {
+			s.err = errors.New("iq bind result without jid")
+			return
+		}
 		s.BindJid = payload.Jid // our local id (with possibly randomly generated resource
 	default:
 		s.err = errors.New("iq bind result missing")
